@@ -100,6 +100,8 @@ pub mod parse;
 pub mod ruleset;
 pub mod symbol;
 pub mod value;
+#[cfg(reval_verif)]
+mod verif;
 
 pub use error::{Error, Result};
 
